@@ -512,6 +512,9 @@ def run(ctx, R, R2):
                     scan['none'] = True
         sl = scan['slice']
         ok_slice = sl is not None and sl[0] is not None and sl[1] is not None and (eq(sl[0], base_any - NT) or eq(sl[0], base_any - NT - IX)) and eq(sl[1] - sl[0], NT)
+        # a second search beside the verified scan (a bisection for mid-sized nodes, a hand-written loop): its arithmetic is not judged
+        if scan['form'] in ('position+map', 'zip-rev+find') and f.loops():
+            ctx.undecided(R2, 'scan-path:extra-search', 'find_input contains a loop besides the iterator scan that was verified: that search path is not checked', fn=f)
         ctx.check(R2, bool(ok_slice and scan['map'] and scan['eq'] and scan['none']), 'scan-path',
                   'without an index exactly the stored inputs [start-of-inputs, +ntrans) are scanned for the probe byte and storage position p means transition ntrans-1-p (inputs are stored in reverse): slice %s, mirrored index %s, equality test %s, miss -> None %s (%s)' % (
                       sl, scan['map'], scan['eq'], scan['none'], scan['form']), fn=f)
